@@ -47,6 +47,9 @@ func (g *tgen) typ(depth int) reflect.Type {
 	case k < 5:
 		return gen.Pick(g.r, scalarTypes)
 	case k < 6:
+		if g.r.Chance(15) {
+			return reflect.PointerTo(reflect.PointerTo(gen.Pick(g.r, scalarTypes[:13])))
+		}
 		return reflect.PointerTo(gen.Pick(g.r, scalarTypes[:13]))
 	case k < 7:
 		return reflect.SliceOf(g.typ(depth - 1))
@@ -102,7 +105,7 @@ func (g *tgen) fill(v reflect.Value, depth int) {
 	case reflect.Uint, reflect.Uint8, reflect.Uint16, reflect.Uint32:
 		v.SetUint(uint64(g.r.Intn(4)))
 	case reflect.Float32, reflect.Float64:
-		v.SetFloat(gen.Pick(g.r, []float64{0, 1, 0.5, -1.25, 2, 1024.5}))
+		v.SetFloat(gen.Pick(g.r, []float64{0, 1, 0.5, -1.25, 2, 1024.5, 0.1, 1e-7, 16777217}))
 	case reflect.String:
 		v.SetString(gen.Pick(g.r, []string{"", "a", "b", "é", "x y"}))
 	case reflect.Slice:
@@ -138,7 +141,7 @@ func (g *tgen) fill(v reflect.Value, depth int) {
 		g.fill(p.Elem(), depth-1)
 		v.Set(p)
 	case reflect.Interface:
-		switch g.r.Intn(5) {
+		switch g.r.Intn(7) {
 		case 0:
 		case 1:
 			v.Set(reflect.ValueOf(int64(g.r.Intn(3))))
@@ -146,8 +149,25 @@ func (g *tgen) fill(v reflect.Value, depth int) {
 			v.Set(reflect.ValueOf("s"))
 		case 3:
 			v.Set(reflect.ValueOf(map[string]interface{}{"q": int64(1), "r": []interface{}{true}}))
-		default:
+		case 4:
 			v.Set(reflect.ValueOf([]interface{}{int64(1), "x"}))
+		default:
+			// typed Go values behind an interface (inside free-form containers too): encoding/json encodes
+			// them by their dynamic type
+			typedVals := []interface{}{
+				[]string{"-v", "--all"}, map[string]string{"k": "v"}, Inner{X: 1, Y: "y"}, &Inner{X: 2}, []byte("hi"),
+				int32(3), uint8(4), float32(0.5), map[string]int{"n": 1}, []Inner{{X: 1}}, In3{A: "a"},
+				customMarshal{1}, &customMarshal{2}, []customMarshal{{3}}, float32(0.1),
+			}
+			tv := gen.Pick(g.r, typedVals)
+			switch g.r.Intn(3) {
+			case 0:
+				v.Set(reflect.ValueOf(tv))
+			case 1:
+				v.Set(reflect.ValueOf(map[string]interface{}{"t": tv, "u": int64(1)}))
+			default:
+				v.Set(reflect.ValueOf([]interface{}{tv, "x"}))
+			}
 		}
 	case reflect.Struct:
 		for i := 0; i < v.NumField(); i++ {
@@ -180,6 +200,45 @@ type Inner struct {
 	X int    `json:"x"`
 	Y string `json:"y,omitempty"`
 }
+
+// nested inline embedding, three and four levels deep, by value and by pointer
+type In3 struct {
+	A string `json:"a3"`
+	B string `json:"b3,omitempty"`
+	C int    `json:"c3"`
+}
+
+type In2 struct {
+	In3 `json:",inline"`
+	D   string `json:"d2"`
+	E   int    `json:"e2,omitempty"`
+}
+
+type In1 struct {
+	In2 `json:",inline"`
+	F   string `json:"f1"`
+	G   *int   `json:"g1,omitempty"`
+}
+
+type deepInline struct {
+	In1 `json:",inline"`
+	H   string `json:"h0"`
+	I   []In3  `json:"i0,omitempty"`
+}
+
+type PIn2 struct {
+	*In3 `json:",inline"`
+	D    string `json:"d2"`
+}
+
+type ptrInline struct {
+	*PIn2 `json:",inline"`
+	H     string                 `json:"h0"`
+	M     map[string]interface{} `json:"m0,omitempty"`
+	L     []interface{}          `json:"l0,omitempty"`
+}
+
+var compiledTypes = []reflect.Type{reflect.TypeOf(deepInline{}), reflect.TypeOf(ptrInline{}), reflect.TypeOf(In1{}), reflect.TypeOf(PIn2{})}
 
 // ---------------------------------------------------------------------------------------------
 
@@ -239,6 +298,10 @@ func domRfl(r *gen.Rng, n int, thorough bool, o *Out) {
 				w.Y = "y"
 			}
 			ptr = reflect.ValueOf(w)
+		} else if cr.Chance(15) {
+			ptr = reflect.New(gen.Pick(cr, compiledTypes))
+			g.fill(ptr.Elem(), 5)
+			o.Tag("rfl:compiled-inline")
 		} else {
 			st := g.structType(2)
 			ptr = reflect.New(st)
